@@ -219,6 +219,15 @@ class V:
         return f"V({self.k},{set(self.cls) or ''},anc={sorted(self.anc)},deps={sorted(self.deps)},deg={self.deg})"
 
 
+class _Ctl(frozenset):
+    """control-stack entry; .loop = True when it only lasts until the end of the current loop iteration"""
+    loop = False
+
+
+class _Taint(set):
+    loop = False
+
+
 def raw(deps=F(), deg=_DEG0, const=None, carrier=None):
     return V("raw", deps=deps, deg=deg, const=const, carrier=carrier)
 
@@ -350,6 +359,7 @@ class Cx:
         self.stack = []
         self.fn = []             # stack of (path, qualname)
         self.in_loop = 0
+        self.loop_exits = []
 
     def ctldeps(self):
         """control context as references tagged 'c' (4-tuples), so that data and control dependencies stay apart:
@@ -703,7 +713,27 @@ class Interp:
         return V("dict", elem=v, deps=k.deps)
 
     def ev_Lambda(self, e, env, cx):
-        return raw(deg={})
+        # a closure: evaluated at its call sites (predicate / key helpers passed to an extracted method)
+        return V("lambda", node=e, const=dict(env), deg={})
+
+    def call_closure(self, fv, args, kw, cx):
+        fn = fv.node
+        key = ("<closure>", id(fn))
+        if key in cx.stack or len(cx.stack) > MAX_DEPTH:
+            return V("raw")
+        env = dict(fv.const or {})
+        env.update(self.bind_params(fn, args, kw, 0, cx))
+        cx.stack.append(key)
+        try:
+            if isinstance(fn, ast.Lambda):
+                return self.ev(fn.body, env, cx)
+            saved_ctl, saved_taint = len(cx.ctl), len(cx.taint)
+            out = self.run_fn(fn.body, env, cx)
+            del cx.ctl[saved_ctl:]
+            del cx.taint[saved_taint:]
+            return out
+        finally:
+            cx.stack.pop()
 
     # -------------------------------------------------------------------------------------------- calls
     def ev_Call(self, e, env, cx):
@@ -715,6 +745,8 @@ class Interp:
         if isinstance(f, ast.Attribute) and isinstance(f.value, ast.Name) and f.value.id in MODULES \
                 and f.value.id not in env:
             return self.call_module(f.value.id, f.attr, e, args, kw, alld, cx)
+        if isinstance(f, ast.Name) and f.id in env and env[f.id].k == "lambda":
+            return self.call_closure(env[f.id], args, kw, cx)
         if isinstance(f, ast.Name):
             return self.call_name(f.id, e, args, kw, alld, env, cx)
         if isinstance(f, ast.Attribute) and isinstance(f.value, ast.Call) and isinstance(f.value.func, ast.Name) \
@@ -1147,7 +1179,21 @@ class Interp:
 
     @staticmethod
     def exits(body):
-        return bool(body) and isinstance(body[-1], (ast.Return, ast.Raise))
+        return bool(body) and isinstance(body[-1], (ast.Return, ast.Raise, ast.Continue, ast.Break))
+
+    def _loop_body(self, body, env, before, cx, rets):
+        """one abstract iteration: `continue` / `break` arms make the rest of the body control dependent on their
+        test (popped again here) and their environments are joined back in at the end of the iteration"""
+        cx.loop_exits.append([])
+        lc, lt = len(cx.ctl), len(cx.taint)
+        self.run(body, env, cx, rets)
+        envs = cx.loop_exits.pop()
+        cx.ctl[lc:] = [x for x in cx.ctl[lc:] if not getattr(x, "loop", False)]
+        cx.taint[lt:] = [x for x in cx.taint[lt:] if not getattr(x, "loop", False)]
+        for other in [before] + envs:
+            for k in set(other) | set(env):
+                a, b = other.get(k), env.get(k)
+                env[k] = b if a is None else (a if b is None else (a if a is b else join([a, b])))
 
     def run(self, body, env, cx, rets):
         for s in body:
@@ -1175,10 +1221,7 @@ class Interp:
                 for _ in range(2):
                     before = dict(env)
                     self.bind(s.target, self.elem_of(it), env, cx)
-                    self.run(s.body, env, cx, rets)
-                    for k in set(before) | set(env):
-                        a, b = before.get(k), env.get(k)
-                        env[k] = b if a is None else (a if b is None else (a if a is b else join([a, b])))
+                    self._loop_body(s.body, env, before, cx, rets)
                 cx.in_loop -= 1
                 self.run(s.orelse, env, cx, rets)
                 cx.taint.pop()
@@ -1190,8 +1233,10 @@ class Interp:
                 tk = set()
                 if not inv:
                     tk = {k for k, d in (self._test_deg(s.test, env, cx) or {}).items() if d != 0}
-                cx.ctl.append(t.deps)
-                cx.taint.append(tk)
+                lc, lt = len(cx.ctl), len(cx.taint)
+                ce, te = _Ctl(t.deps), _Taint(tk)
+                cx.ctl.append(ce)
+                cx.taint.append(te)
                 e1, e2 = dict(env), dict(env)
                 n1 = isinstance(s.test, ast.Call) and self._isinstance_narrow(s.test, e1)
                 self.run(s.body, e1, cx, rets)
@@ -1214,9 +1259,20 @@ class Interp:
                             merged[k] = join([a, b])
                 env.clear()
                 env.update(merged)
-                if not (x1 or x2):
-                    cx.ctl.pop()
-                    cx.taint.pop()
+                raises = all(isinstance(b[-1], ast.Raise) for b, x in ((s.body, x1), (s.orelse, x2)) if x)
+                if not (x1 or x2) or raises:
+                    # (an arm that raises assigns nothing: what follows does not vary with the test)
+                    if len(cx.ctl) == lc + 1 and len(cx.taint) == lt + 1:
+                        cx.ctl.pop()
+                        cx.taint.pop()
+                    else:
+                        # a nested arm left the block (return / continue / …): what follows depends on this test too
+                        ce.loop = te.loop = all(getattr(x, "loop", False) for x in cx.ctl[lc + 1:])
+                elif cx.loop_exits and all(isinstance(b[-1], (ast.Continue, ast.Break))
+                                           for b, x in ((s.body, x1), (s.orelse, x2)) if x):
+                    # the rest of the loop body is control dependent on the test (dropped again by _loop_body)
+                    ce.loop = te.loop = True
+                    cx.loop_exits[-1].append(e1 if x1 else e2)
                 # else: the rest of the function is control dependent on the test (restored by inline)
             elif isinstance(s, ast.Return):
                 if s.value is not None:
@@ -1228,10 +1284,24 @@ class Interp:
                 self.ev(s.test, env, cx)
             elif isinstance(s, ast.Raise):
                 pass
+            elif isinstance(s, (ast.Continue, ast.Break)):
+                pass
+            elif isinstance(s, ast.While):
+                t = self.ev(s.test, env, cx)
+                cx.ctl.append(t.deps)
+                cx.taint.append({k for k, d in (self._test_deg(s.test, env, cx) or {}).items() if d != 0})
+                cx.in_loop += 1
+                for _ in range(2):
+                    self._loop_body(s.body, env, dict(env), cx, rets)
+                    self.ev(s.test, env, cx)
+                cx.in_loop -= 1
+                self.run(s.orelse, env, cx, rets)
+                cx.taint.pop()
+                cx.ctl.pop()
             elif isinstance(s, (ast.Pass, ast.Import, ast.ImportFrom)):
                 pass
             elif isinstance(s, ast.FunctionDef):
-                pass
+                env[s.name] = V("lambda", node=s, const=env, deg={})      # local helper: run at its call sites
             elif isinstance(s, ast.Delete):
                 pass
             else:
